@@ -192,10 +192,13 @@ def duration_text(draw):
                 frac_us = Fraction(1, 2) * scale
                 if frac_us.denominator != 1:
                     fr, digits, frac_us = 0, 1, Fraction(0)
-            parts.append(f"{whole}.{fr:0{digits}d}{u}")
+            if draw(st.integers(0, 3)) == 0:
+                whole = 0
+            lead = "" if whole == 0 and draw(st.booleans()) else str(whole)  # ".5s": the spelling without a leading digit
+            parts.append(f"{lead}.{fr:0{digits}d}{u}")
             total += whole * scale + frac_us
         else:
-            parts.append(f"{whole}{u}")
+            parts.append(f"{whole}.{u}" if draw(st.integers(0, 5)) == 0 else f"{whole}{u}")  # "5.s": a decimal point with nothing after it
             total += whole * UNIT_US[u]
     text = sign + "".join(parts)
     us = int(total)
